@@ -23,8 +23,13 @@ API
       missing keys = False / None.  `block` counts calls of restart_block minus one... precisely: the
       number of `pre_step` callbacks seen so far for a step with status.first=True, minus one.
       Script.reads collects the (block, slot, iter) keys of `conv` that the implementation actually read.
+      step_dt: (block, index of the step in controller.MS) -> float, assigned DIRECTLY to S.levels[*].params.dt in
+      prepare_next_block after block `block` by `ScriptedDtCC` (control_order +150, i.e. after the step size spreading):
+      lets the individual steps of one block have DIFFERENT step sizes.
   make_controller(num_procs, nlevels, maxiter, nsweeps, predict_type, mssdc_jac, all_to_done, dt,
-                  num_nodes=2, lam=-1.0, extra_cc=None, controller_class=None) -> (controller, Recorder)
+                  num_nodes=2, lam=-1.0, extra_cc=None, controller_class=None, own_dt=False) -> (controller, Recorder)
+      own_dt=True replaces BasicRestarting's step_size_spreader by `OwnDtSpreader`: every step takes ITS OWN
+      level.status.dt_new (script.dt_new) as next step size, nothing is spread -> different step sizes inside a block.
   run_scripted(controller, rec, script, t0, Tend, u0=1.0, max_events=400000) -> Result
       (a run recording more than max_events events is aborted with outcome 'ScriptedRunaway')
       Result.events   list of tuples, see EVENT FORMAT
@@ -69,7 +74,8 @@ RESTOL = 0.5
 
 
 class Script:
-    def __init__(self, conv=None, force_done=None, force_cont=None, restart=None, dt_new=None):
+    def __init__(self, conv=None, force_done=None, force_cont=None, restart=None, dt_new=None, step_dt=None):
+        self.step_dt = step_dt or {}
         self.conv = conv or {}
         self.force_done = force_done or {}
         self.force_cont = force_cont or {}
@@ -194,6 +200,35 @@ class ScriptedCC(ConvergenceController):
             S.status.force_continue = True
         if CTX.script.restart.get((CTX.block, S.status.slot), False) and CheckConvergence.check_convergence(S):
             S.status.restart = True
+
+
+class ScriptedDtCC(ConvergenceController):
+    """Assigns scripted step sizes to individual steps in prepare_next_block (after the spreading controller)."""
+
+    def setup(self, controller, params, description, **kwargs):
+        return {'control_order': +150, **super().setup(controller, params, description, **kwargs)}
+
+    def prepare_next_block(self, controller, S, size, time, Tend, **kwargs):
+        if not CTX.on:
+            return
+        v = CTX.script.step_dt.get((CTX.block, controller.MS.index(S)))
+        if v is not None:
+            for L in S.levels:
+                L.params.dt = v
+
+
+class OwnDtSpreader(ConvergenceController):
+    """Drop-in for BasicRestarting's `step_size_spreader`: no spreading, every step keeps its own dt_new."""
+
+    def setup(self, controller, params, description, **kwargs):
+        return {'control_order': +100, **super().setup(controller, params, description, **kwargs)}
+
+    def prepare_next_block(self, controller, S, size, time, Tend, MS=None, **kwargs):
+        if MS is not None and S not in MS:
+            return
+        for L in S.levels:
+            if L.status.dt_new is not None:
+                L.params.dt = L.status.dt_new
 
 
 def _val(x):
@@ -327,7 +362,7 @@ class Recorder:
 
 def make_controller(num_procs, nlevels, maxiter, nsweeps, predict_type=None, mssdc_jac=True, all_to_done=False,
                     dt=0.1, num_nodes=2, lam=-1.0, extra_cc=None, controller_class=None, scripted_cc=True,
-                    extra_hooks=None):
+                    extra_hooks=None, own_dt=False):
     nsweeps = list(nsweeps)
     assert len(nsweeps) == nlevels
     description = {
@@ -345,6 +380,10 @@ def make_controller(num_procs, nlevels, maxiter, nsweeps, predict_type=None, mss
         description['space_transfer_params'] = {}
     if scripted_cc:
         description['convergence_controllers'][ScriptedCC] = {}
+        description['convergence_controllers'][ScriptedDtCC] = {}
+    if own_dt:
+        from pySDC.implementations.convergence_controller_classes.basic_restarting import BasicRestartingNonMPI
+        description['convergence_controllers'][BasicRestartingNonMPI] = {'step_size_spreader': OwnDtSpreader}
     for k, v in (extra_cc or {}).items():
         description['convergence_controllers'][k] = v
     cparams = {'logger_level': 40, 'dump_setup': False, 'hook_class': [RecordingHook] + list(extra_hooks or []),
